@@ -358,13 +358,15 @@ def run_compiler_check(ctx, res, prop):
             if fail and j["wrong"] is None and j["dirty"] is None:
                 stats["y1_only"] += 1
         events = set(rep.get("events", [])) if rep and "error" not in rep else set()
-        # the instance lies in the class of the Lean theorem C02_fragment_partial (single tree-like definition)
-        # and the model reproduces the real gate list: the theorem applies, a wrong output can only be new
+        # the instance lies in the class of one of the Lean fragment theorems (C02_fragment_partial: single tree-like
+        # definition; C02_fragment_consts: + constants; C02_fragment_multi / C02_fragment_named: straight-line
+        # definition lists, uncompute off – the driver's `in_fragment` is their disjunction for this run)
+        # and the model reproduces the real gate list: a theorem applies, a wrong output can only be new
         in_frag = bool(prop == "C02" and rep is not None and not mismatch and rep.get("in_fragment"))
         if in_frag:
             stats["in_fragment"] += 1
             if not rep.get("valid", True):
-                res.disagree(case, "model instance inside the class of C02_fragment_partial rejected by the Lean validator "
+                res.disagree(case, "model instance inside the class of a C02 fragment theorem rejected by the Lean validator "
                              "(contradicts the theorem: model and proof out of sync)", code=None, model=dict(valid=False))
         if rep is not None and not mismatch:
             if not events:
@@ -380,7 +382,7 @@ def run_compiler_check(ctx, res, prop):
             attributed = []
             if in_frag:
                 stats["in_fragment_bad"] += 1
-                what += " (instance inside the class of theorem C02_fragment_partial: never a known finding)"
+                what += " (instance inside the class of a C02 fragment theorem: never a known finding)"
             elif rep is not None and not mismatch:
                 if not j["mapped"]:
                     fid = f"{prop}-ret-flat-names"
@@ -426,9 +428,11 @@ def run_compiler_check(ctx, res, prop):
                 "independent simulator. distinct by (program, optimizer, uncompute); non-trivial = at least one compound "
                 "expression and >= 2 input bits")
     if prop == "C02":
-        res.notes.append(f"{stats['in_fragment']} compiled instances lie in the decidable class of the Lean theorem "
-                         "C02_fragment_partial (one definition, tree-like expression over the arguments) with the model "
-                         "reproducing the real gate list: there the theorem applies and a failure is never attributed to a known finding")
+        res.notes.append(f"{stats['in_fragment']} compiled instances lie in the decidable class of a Lean fragment theorem "
+                         "(C02_fragment_partial: one tree-like definition; C02_fragment_consts: + constants; "
+                         "C02_fragment_multi / C02_fragment_named: straight-line definition lists with re-used freed ancillas, "
+                         "uncompute off) with the model reproducing the real gate list: there a theorem applies and a failure "
+                         "is never attributed to a known finding")
     res.notes.append("decided per compiled instance (exhaustive over its inputs) by validators whose soundness is proved; "
                      "the compiler model reproduces the real gate list exactly, ancilla choices logged from the real run")
     return res
